@@ -450,6 +450,12 @@ func (s *session) finish() string {
 
 // execCase runs the op lines of one case and returns them with the observations appended.
 func execCase(ops []string) (out []string) {
+	for _, l := range ops {
+		if strings.HasPrefix(strings.TrimSpace(l), "task ") {
+			return execTaskCase(ops)
+		}
+		break
+	}
 	var fs frameState
 	var s *session
 	finished := false
@@ -639,6 +645,8 @@ func Run(args []string) int {
 	for i := 0; i < f.N; i++ {
 		g := r.Fork()
 		switch {
+		case i%25 == 5:
+			emit(o, fmt.Sprintf("t%d", i), execCase(genTaskCase(g, thorough, i)))
 		case i%3 == 0:
 			emit(o, fmt.Sprintf("f%d", i), execCase(genFrameCase(g, thorough, i)))
 		default:
